@@ -81,13 +81,25 @@ func (fp *FilePath) Write(b []byte) (n int, err error) {
 	return n, nil
 }
 
+// resolvedName returns the name of the folder the path leads to once "." and ".." items and separators inside an item
+// name are resolved the way ReadPath resolves them, so that the drop box and upload folder checks judge the folder a
+// request actually reaches and not the spelling of its last path item.
+func (fp *FilePath) resolvedName() string {
+	var subPath string
+	for _, pathItem := range fp.Items {
+		subPath = filepath.Join("/", subPath, string(pathItem.Name))
+	}
+
+	return filepath.Base(subPath)
+}
+
 // IsDropbox checks if a FilePath matches the special drop box folder type
 func (fp *FilePath) IsDropbox() bool {
 	if fp.Len() == 0 {
 		return false
 	}
 
-	return strings.Contains(strings.ToLower(string(fp.Items[fp.Len()-1].Name)), "drop box")
+	return strings.Contains(strings.ToLower(fp.resolvedName()), "drop box")
 }
 
 func (fp *FilePath) IsUploadDir() bool {
@@ -95,7 +107,7 @@ func (fp *FilePath) IsUploadDir() bool {
 		return false
 	}
 
-	return strings.Contains(strings.ToLower(string(fp.Items[fp.Len()-1].Name)), "upload")
+	return strings.Contains(strings.ToLower(fp.resolvedName()), "upload")
 }
 
 func (fp *FilePath) Len() uint16 {
